@@ -1495,8 +1495,13 @@ impl<R: std::io::Seek> Decoder<R> {
                         ..
                     }) => {
                         assert!(*sample_offset <= sample);
-                        self.reader
-                            .seek(SeekFrom::Start(frames_start + byte_offset))?;
+                        // a seek point's byte offset comes from the file,
+                        // so it might not be reachable at all
+                        self.reader.seek(SeekFrom::Start(
+                            frames_start
+                                .checked_add(*byte_offset)
+                                .ok_or(Error::InvalidSeek)?,
+                        ))?;
                         self.current_sample = *sample_offset;
                         Ok(*sample_offset)
                     }
